@@ -2081,6 +2081,11 @@ def _nest_fn(uid, *args):
     return ('N', None, (uid,) + args)
 
 
+def _nest_ctx_fn(context, uid, *args):
+    _CALLS.append(uid)
+    return ('N', None, (uid,) + args)
+
+
 def _nest_inner(desc):
     """(workflow, reference, specs) of the called workflow described by desc = [n, edges, names scheme]"""
     from pharmpy.workflows import Task, Workflow
@@ -2190,7 +2195,9 @@ def _check_nested(case, where):
             # the caller reports (static inputs, results of its predecessors, what call_workflow returned)
             specs[t] = _Spec(t, 'C', (f'o{i}', desc_json, case['via']))
         else:
-            t = Task(names[i], _nest_fn, f'o{i}', i * 10)
+            # every task of the calling workflow takes the context, like the caller (no task has both
+            # context-taking and other predecessors)
+            t = Task(names[i], _nest_ctx_fn, f'o{i}', i * 10)
             specs[t] = _Spec(t, 'N', (f'o{i}', i * 10))
         tasks.append(t)
     wb, ref = _build_dag(tasks, case['edges'], list(range(n)))
